@@ -27,7 +27,7 @@ RULE = ('Histories of 1..5 operations on one FitInfo: keep(sel) with the six sel
 ASSUMPTIONS = ['FitInfo.sort order (numpy argsort, NaN last) is taken as the ranking', 'selector thresholds equal to an attained value are not judged',
                "('A', v) is used with an arbitrary v, as in the documentation"]
 PROBES = ['tie_in_chi2', 'nan_present', 'inf_present', 'zero_length_result', 'kept_zero', 'kept_all', 'kept_some', 'equal_threshold_skipped',
-          'hop_pickle', 'hop_file', 'hop_consumer', 'family_real', 'composition_checked', 'n_beyond_total', 'flags_edited_in_place', 'rejected_flag_assignment', 'hop_file_pair', 'long_ranking', 'long_relative_cut_inside']
+          'hop_pickle', 'hop_file', 'hop_consumer', 'family_real', 'composition_checked', 'n_beyond_total', 'flags_edited_in_place', 'rejected_flag_assignment', 'hop_file_pair', 'long_ranking', 'long_relative_cut_inside', 'hop_plot_several_sources', 'plot_threshold_tuned_on_a_source']
 
 
 def budgets(tier):
@@ -70,7 +70,7 @@ def generate(rng, tier, idx):
         sc['with_fluxes'] = rng.random() < 0.5
     steps = []
     for _ in range(rng.randint(1, 5)):
-        op = rng.choice(['keep', 'keep', 'keep', 'keep', 'pickle', 'file', 'file_pair', 'flags', 'bad_assign'] + (['consumer'] if real else []))
+        op = rng.choice(['keep', 'keep', 'keep', 'keep', 'pickle', 'file', 'file_pair', 'flags', 'bad_assign'] + (['consumer', 'consumer', 'consumer'] if real else []))
         st = {'op': op}
         if op == 'file_pair':
             # the result is written twice into ONE open file, its Source edited in place between the two writes
@@ -82,6 +82,15 @@ def generate(rng, tier, idx):
             st['v'] = rng.choice([0, 1, 2, 3, 4, 9])
         if op in ('keep', 'consumer'):
             st['sel'] = _gen_sel(rng)
+        if op == 'consumer' and rng.random() < 0.5:
+            # the analyst plots several sources in one call, with a cap on the number of fits shown per source
+            st['via'] = 'plot'
+            st['plot_max'] = rng.choice([None, 1, 2, 3])
+            st['others'] = [rng.randrange(1 << 30) for _ in range(rng.randint(1, 3))]
+            # the threshold is tuned on one of the sources (between two of its fits), as an analyst would
+            st['thr'] = {'src': rng.randrange(4), 'rank': rng.randrange(8)} if rng.random() < 0.7 else None
+            st['pos'] = rng.randrange(3)
+            st['channel'] = rng.choice(['path', 'list'])
         steps.append(st)
     sc['steps'] = steps
     if not real and rng.random() < 0.004:
@@ -166,6 +175,7 @@ def _build_real(sc, sim, out):
     if r[0] != 'ok':
         out.discarded = 'setup-fitter:' + pipe.exc_name(r)
         return None, None
+    sim.c05_fitter = r[1]
     r = pipe.call(r[1].fit, make_source(sc['source']))
     if r[0] != 'ok':
         out.discarded = 'setup-fit:' + pipe.exc_name(r)
@@ -345,6 +355,16 @@ def _execute(sc, sim, out):
                 out.probe('equal_threshold_skipped')
                 trace.append((op, sel[0], 'skip'))
                 continue
+            if st.get('via') == 'plot':
+                msg = _plot_consumer(sc, st, sel, info, R, k, nd, path, out, getattr(sim, 'c05_fitter', None))
+                if msg == 'skip':
+                    trace.append((op, 'plot', sel[0], 'skip'))
+                    continue
+                if msg:
+                    out.violate('selection', msg, key='plot')
+                    break
+                trace.append((op, 'plot', sel[0], st.get('plot_max')))
+                continue
             from sedfitter import write_parameters
             r = pipe.call(pipe.write_fit_file, path, [info])
             if r[0] == 'ok':
@@ -373,6 +393,68 @@ def _execute(sc, sim, out):
         if k != min(counts_on_original):
             out.violate('composition', 'a history of selectors kept %d fits; the tightest of them alone keeps %d' % (k, min(counts_on_original)))
     out.trace = trace
+
+
+def _plot_consumer(sc, st, sel, info, R, k, nd, path, out, ft):
+    """plot() of several sources in one call: per source, the number of fits drawn is what the selector keeps of that
+    source's ranking, capped by plot_max.  The objects handed over are not touched (their state is re-checked later)."""
+    import copy
+    from sedfitter import plot
+    if ft is None:
+        return 'skip'
+    infos = [info]
+    for j, seed in enumerate(st['others']):
+        g = np.random.default_rng(seed)
+        c = 10 ** g.uniform(-0.5, 0.5, len(sc['source']['valid']))
+        s2 = dict(sc['source'], name='other%d' % j, flux=[f * cc if v != 4 else f + float(np.log10(cc)) for f, v, cc in zip(sc['source']['flux'], sc['source']['valid'], c)],
+                  error=[e * cc if v in (1, 9) else e for e, v, cc in zip(sc['source']['error'], sc['source']['valid'], c)])
+        s2.pop('arrays', None)
+        r = pipe.call(ft.fit, make_source(s2))
+        if r[0] != 'ok':
+            return 'skip'
+        infos.insert(min(st['pos'], len(infos)) if j == 0 else len(infos), r[1])
+    if st.get('thr') and sel[0] in 'CDEF':
+        x = infos[st['thr']['src'] % len(infos)]
+        chi = R['chi2'][:k] if x is info else _f(x.chi2)
+        n_d = nd if x is info else n_data_of(x.source.valid)
+        with np.errstate(all='ignore'):
+            stat = {'C': chi, 'D': chi - chi[:1], 'E': chi / n_d, 'F': (chi - chi[:1]) / n_d}[sel[0]] if len(chi) else chi
+        stat = stat[np.isfinite(stat)]
+        if len(stat):
+            j = st['thr']['rank'] % len(stat)
+            thr = float((stat[j] + stat[j + 1]) / 2) if j + 1 < len(stat) else float(stat[-1] * 1.5 + 1)
+            sel = (sel[0], thr)
+            out.probe('plot_threshold_tuned_on_a_source')
+    want = {}
+    for x in infos:
+        chi = R['chi2'][:k] if x is info else _f(x.chi2)
+        n_d = nd if x is info else n_data_of(x.source.valid)
+        w = ref_select(chi, sel, n_d)
+        want[x.source.name] = min(w, st['plot_max']) if (isinstance(w, int) and st['plot_max']) else w
+    r = pipe.call(pipe.write_fit_file, path, infos)
+    if r[0] != 'ok':
+        return 'skip'
+    arg = path if st['channel'] == 'path' else [copy.deepcopy(x) for x in infos]
+    if st['channel'] == 'list':
+        for a_, x in zip(arg, infos):
+            a_.meta = x.meta
+    r = pipe.call(plot, arg, select_format=sel, plot_max=st['plot_max'], sed_type='largest', memmap=False)
+    out.probe('hop_plot_several_sources')
+    if r[0] != 'ok':
+        return 'plot%r of %d sources raised %s: %s' % (sel, len(infos), pipe.exc_name(r), r[1])
+    out.compared('plot-count')
+    for x in infos:
+        nm = x.source.name
+        w = want[nm]
+        if not isinstance(w, int):
+            out.probe('equal_threshold_skipped')
+            continue
+        fig = r[1].get(nm)
+        got = len(fig['lines'].get_segments()) if (fig is not None and 'lines' in fig) else 0
+        if got != w:
+            return ('plot%r with plot_max=%r of sources %s (via %s): %d fits drawn for %s, the selector keeps %s of its %d fits' % (
+                sel, st['plot_max'], [y.source.name for y in infos], st['channel'], got, nm, ref_select(R['chi2'][:k] if x is info else _f(x.chi2), sel, nd if x is info else n_data_of(x.source.valid)), len(_f(x.chi2))))
+    return None
 
 
 def lowerings(sc, viol=None):
